@@ -29,15 +29,12 @@ ANCHORS = MUST_REACH
 MIN_NONTRIVIAL = {'quick': 300, 'thorough': 300}
 RULE = ('programs of 2-12 statements (nesting <= 2) over a fixed synthesised BridgePoint model (5 classes, '
         'simple / reflexive-with-phrases / linked relationships, typed functions, an external entity with '
-        'bridges, class and instance operations, a derived attribute, two enumerations, a constant group, '
-        'instance and class state machines with events carrying 0-3 data items, a creation event): '
+        'bridges, class and instance operations, a derived attribute, two enumerations, a constant group): '
         'assignments to scalars, attributes and array elements, control flow, create/delete, relate/unrelate '
         '(+using, phrases), all select forms with where clauses and multi-step chains, function / bridge / '
         'class-operation / instance-operation invocations as statements and inside expressions with 0-3 '
-        'parameters, parameter reads, enumerators and qualified constants, event generation to instances / '
-        'self / class (assigner) / creator, event creation and generation of created events, event data '
-        'reads (param. / rcvd_evt.); placed in a function, a bridge, an instance operation, a derived '
-        'attribute, a state action and a transition action. Non-trivial = at least one invocation with two '
+        'parameters, parameter reads, enumerators and qualified constants; placed in a function, a bridge, '
+        'an instance operation and a derived attribute body. Non-trivial = at least one invocation with two '
         'or more parameters or one select with a chain or where clause; distinct by hash of (home, text).')
 ASSUMPTIONS = ['an invocation written NS::name(...) may come back as the same invocation in its bridge/class '
                'spelling (the node classes Implicit/Bridge/ClassInvocationNode are one construct)',
